@@ -54,8 +54,10 @@ pub unsafe extern "C" fn redirectionio_log_init_with_callback(callback: redirect
     };
 
     INIT.call_once(|| {
-        log::set_boxed_logger(Box::new(logger))
-            .map(|()| log::set_max_level(log::LevelFilter::Trace))
-            .expect("cannot set logger");
+        // A logger may already be installed (redirectionio_log_init_stderr called before), this is not fatal
+        match log::set_boxed_logger(Box::new(logger)) {
+            Ok(()) => log::set_max_level(log::LevelFilter::Trace),
+            Err(err) => log::warn!("cannot set callback logger: {}", err),
+        }
     });
 }
